@@ -18,8 +18,15 @@ F141  (synthesised loops)  `SolvLoopSynthesizer` (both `handle_unsolvable_loop` 
       on the exact reachable law of the source (Lean reference semantics): the source is random; every non-copy
       update `v = g(..)` of the loop is an exact moment recurrence of the source, E[g(phi(state_n))] =
       E[phi(v)(state_{n+1})] for all compared n (so signs, coefficients and index shifts are right) and all watched first moments agree at n = 0 (initial values are right);
-      some g contains a monomial of degree ≥ 2 all of whose variables have affine updates themselves (genuine
-      carriers of a mean).  Any other disagreement is not attributed.
+      some g contains a monomial of degree ≥ 2 all of whose variables are genuine carriers of a mean, i.e. are
+      effective for one of the two reasons Polar's theory has: their own (composed) update is affine, or they are
+      *finite-valued* in the source (a finite variable is never defective: its powers reduce, so e.g.
+      `y = y/2 - y**2` on {0, 1, -1/2} is legitimately retained — gen-94 of the thorough tier, seed 0).  Finiteness is
+      not taken from Polar's type inference but decided on the Lean reference semantics (`_finite_valued`): the
+      joint support of the variable's dependency closure stops growing, which proves it finite for every n; and its
+      exponent in the monomial must be smaller than its number of values (larger powers are reduced to lower ones
+      by RecBuilder._reduce_powers in the unchanged tree — a surviving one is a lost reduction, not this finding).
+      Any other disagreement is not attributed.
 """
 from fractions import Fraction as Fr
 
@@ -132,14 +139,90 @@ def _subst_poly(g, phi):
     return {m: c for m, c in out.items() if c != 0}
 
 
+def _stmt_vars(node, acc):
+    """every variable a statement of the model AST mentions: read, assigned, or kept when its condition fails"""
+    if isinstance(node, list):
+        if len(node) == 2 and node[0] == "var" and isinstance(node[1], str):
+            acc.add(node[1])
+        elif len(node) == 5 and node[0] == "assign":
+            acc.add(node[1])
+            if isinstance(node[4], str):
+                acc.add(node[4])
+            _stmt_vars(node[2], acc)
+            _stmt_vars(node[3], acc)
+        elif len(node) == 3 and node[0] == "simult":
+            acc.update(node[1])
+            _stmt_vars(node[2], acc)
+        else:
+            for x in node:
+                _stmt_vars(x, acc)
+    return acc
+
+
+def _stmt_assigned(node, acc):
+    if isinstance(node, list) and node:
+        if node[0] == "assign":
+            acc.add(node[1])
+        elif node[0] == "simult":
+            acc.update(node[1])
+        elif node[0] == "ite":
+            for br in node[2:]:
+                for st in br:
+                    _stmt_assigned(st, acc)
+    return acc
+
+
+def _finite_valued(src, sigma0, w, nmax=6):
+    """Is the source variable `w` finite-valued along the whole run?  Decided on the Lean reference semantics (op
+    `dist`, exact joint laws), independently of Polar's type inference:
+      V := dependency closure of w in the loop body (over-approximated per top-level statement: whatever a statement
+           assigning a member of V mentions belongs to V), so the V-part of the state after an iteration is a function
+           of the V-part before it and of fresh draws: the joint supports satisfy J_{n+1} = F(J_n), F monotone and
+           union-preserving;
+      if J_{n+1} ⊆ J_0 ∪ … ∪ J_n for some n, that union U is closed (F(U) ⊆ U) and contains every J_m: w takes at
+      most |U| values for every m.  Continuous draws in V make `dist` refuse (values are not constants).
+    Returns the set of values of w (projection of U) or None."""
+    try:
+        if src.get("guard") != ["tt"]:
+            return None
+        body = src["body"]
+        V = {w}
+        changed = True
+        while changed:
+            changed = False
+            for st in body:
+                if _stmt_assigned(st, set()) & V:
+                    vs = _stmt_vars(st, set())
+                    if not vs <= V:
+                        V |= vs
+                        changed = True
+        vs = sorted(V)
+        iw = vs.index(w)
+        seen = set()
+        for n in range(nmax + 1):
+            ans = _model({"op": "dist", "program": src, "sigma0": sigma0, "vars": vs, "n": n}, timeout=40)
+            if not ans.get("ok"):
+                return None
+            J = {tuple(Fr(v) for v in vals) for wt, vals in ans["dist"] if Fr(wt) != 0}
+            if not J or len(J) > 200:
+                return None
+            if n > 0 and J <= seen:
+                return {t[iw] for t in seen}
+            seen |= J
+    except Exception:  # noqa
+        return None
+    return None
+
+
 def nonlinear_effective_in_loop(prop, rec):
     """F141, decided on the reachable law of the *source* (exact, Lean reference semantics):
     (1) the source is random; (2) every non-copy update `v = g(..)` of the synthesised loop is an exact moment
     recurrence of the source, E[g(phi(state_n))] = E[phi(v)(state_{n+1})] for all compared n — the loop is right
-    as a system over expectations; (3) some g contains a monomial of degree >= 2 whose variables all have affine
-    updates themselves (genuinely effective carriers of a mean) — the only thing wrong is that the loop evaluates
-    that monomial at the means.  A wrong sign / coefficient / shifted index breaks (2); a defective variable
-    wrongly retained breaks (3)."""
+    as a system over expectations; (3) some g contains a monomial of degree >= 2 and the variables of every such
+    monomial are genuinely effective carriers of a mean: their own composed update is affine, or they stand for a
+    source variable that is finite-valued for every n (`_finite_valued`, exact) — the only thing wrong is that the
+    loop evaluates that monomial at the means.  A wrong sign / coefficient / shifted index breaks (2); a defective
+    variable wrongly retained (non-linear self-dependence on infinitely many values) breaks (3)."""
     if rec.get("kind") != "loop" or not rec.get("mismatch"):
         return None
     from .checks.c14 import is_random, poly_from_terms, monos_of, expect_poly
@@ -197,16 +280,37 @@ def nonlinear_effective_in_loop(prop, rec):
         cur[v] = gv
     work = sorted(cur.items())
     affine = {v for v, g in work if all(sum(k for _, k in m) <= 1 for m in g)}
-    nonlinear = []
+    nonlinear, not_affine = [], set()
     for v, g in work:
         for m in g:
             if sum(k for _, k in m) >= 2:
-                if all(x in affine for x, _ in m):
-                    nonlinear.append(m)
-                else:
-                    return None
+                nonlinear.append(m)
+                not_affine |= {x for x, _ in m if x not in affine}
     if not nonlinear:
         return None
+    finite = []
+    declared = (rec.get("res_info") or {}).get("finite_types") or {}
+    for x in sorted(not_affine):
+        # the loop variable must stand for one source variable (a `_t` carrier or a retained variable) ...
+        img = phi.get(x)
+        if img is None or len(img) != 1:
+            return None
+        (mono, coef), = img.items()
+        if coef != 1 or len(mono) != 1 or mono[0][1] != 1:
+            return None
+        w = mono[0][0]
+        # ... that takes finitely many values in the source, for every n ...
+        values = _finite_valued(src, rec["sigma0"], w)
+        if values is None:
+            return None
+        # ... and whose power is one the unchanged code keeps: RecBuilder._reduce_powers rewrites w**e, e >= number of
+        # values of w, into lower powers (then the loop is right), so a surviving w**e with e that large is not this
+        # finding but a lost reduction (seeded change C14_D on `y in {0, 1}; x = -x + 2*y**2`).  The number of values
+        # is the exact one; Polar's declared type may be a superset (its typer is not relational), then that counts.
+        bound = max(len(values), int(declared.get(w, 0) or 0))
+        if any(e >= bound for m in nonlinear for y, e in m if y == x):
+            return None
+        finite.append(w)
     # (2) exact moment recurrences along the source run
     need, pairs = [], []
     from .checks.c14 import json_vars
@@ -243,6 +347,7 @@ def nonlinear_effective_in_loop(prop, rec):
     if checked == 0:
         return None
     m = rec["mismatch"]
+    fin = f" ({', '.join(finite)} finite-valued in the source, hence effective)" if finite else ""
     return (f"synthesised loop evaluates non-linear monomials of random effective variables at their means "
-            f"({[[list(x) for x in mm] for mm in nonlinear][:3]}); every update is an exact moment recurrence of the source: "
+            f"({[[list(x) for x in mm] for mm in nonlinear][:3]}){fin}; every update is an exact moment recurrence of the source: "
             f"moment of {m['mono']} wrong from n={m['n']} [{rec['case']['id']}]")
